@@ -30,7 +30,7 @@ ENUM_BATCHES = [
 
 def gen_plan(base_seed, i, tier):
     rng = common.rng_for(base_seed, "C10", i)
-    rows = common.pick_rows(rng, rng.randint(1, 4) if rng.random() < 0.8 else rng.randint(5, 9), {"mcs-based": 10, "no-mcs": 1})
+    rows = common.pick_rows(rng, rng.randint(1, 4) if rng.random() < 0.8 else rng.randint(5, 9), {"mcs-based": 10, "no-mcs": 1, "carbon-surplus": 1.5, "dummy-atom": 0.5, "repeat-mcs": 1.5})
     rows += common.pick_rows(rng, rng.randint(1, 3), {"rule-based": 2, "input-balanced": 2, "declined": 1, "redox": 1})
     rng.shuffle(rows)
     cfg = common.gen_config(rng, len(rows), thresholds=(0,))
@@ -107,6 +107,12 @@ def judge(rows_in, res, where=""):
                 continue
             sr = mcs.get("sorted_reactants") or []
             mr = mcs.get("mcs_results") or []
+            if not sr and not any(mr) and rec is not None:
+                # entries without any match are skipped by the selection: none may be retained for a reaction
+                # whose conditions all came back without a match
+                entries = [e for cond in rec["conditions"] for e in cond if str(e.get("id")) == rid]
+                if entries and not any(sum(_natoms(x) for x in (e.get("mcs_results") or [])) > 0 for e in entries):
+                    vs.append(oracles.V("C10", "entry_without_match_retained", "empty", "%s%s: no condition matched any atom, yet the row carries a search result (issue %r) instead of none" % (where, inp, mcs.get("issue"))))
             if (mcs.get("issue") or "") != "" and not sr:
                 continue  # failed entry: nothing reported
             cc = oracles.carbon_counts(row["input_reaction"] or inp)
